@@ -841,6 +841,12 @@ impl AnyReader {
             AnyReader::B(r) => r.get_subscription_matched_status().await.ok().map(|s| s.current_count),
         }
     }
+    async fn set_qos(&self, q: DataReaderQos) -> Result<(), String> {
+        match self {
+            AnyReader::A(r) => r.set_qos(QosKind::Specific(q)).await.map_err(|e| err_name(&e)),
+            AnyReader::B(r) => r.set_qos(QosKind::Specific(q)).await.map_err(|e| err_name(&e)),
+        }
+    }
     fn handle(&self) -> InstanceHandle {
         match self {
             AnyReader::A(r) => r.get_instance_handle(),
@@ -868,13 +874,60 @@ struct E2eOutcome {
     obs: Vec<PairObs>,
     settled_at_ms: i64,
     stable: bool,
+    /// second verdict per pair after the mutable-policy updates: (writer side matched, reader side
+    /// matched), None = pair not updated / set_qos failed (error kept in upd_errors) / unreadable
+    obs2: Vec<Option<(bool, bool)>>,
+    upd_errors: Vec<String>,
+    stable2: bool,
+}
+
+/// A change of the two mutable RxO policies (DEADLINE, LATENCY_BUDGET) of one endpoint after the
+/// first verdict: the pair must be (re)qualified with the new values.
+#[derive(Clone, Debug)]
+struct Upd {
+    on_reader: bool,
+    deadline: u8,
+    latency: u8,
+}
+
+type Lists = Vec<(Option<Vec<InstanceHandle>>, Option<Vec<InstanceHandle>>)>;
+
+/// read the matched lists until two consecutive rounds (1 s apart) agree, at most 30 s (virtual)
+async fn settle(sim: &Sim, created: &[bool], writers: &[Option<DataWriterAsync<TA>>], readers: &[Option<AnyReader>]) -> (Lists, bool) {
+    let t0 = sim.now();
+    let mut prev: Option<Vec<(Option<usize>, Option<usize>)>> = None;
+    let mut lists: Lists = Vec::new();
+    loop {
+        lists.clear();
+        for i in 0..created.len() {
+            if !created[i] {
+                lists.push((None, None));
+                continue;
+            }
+            let wl = writers[i].as_ref().unwrap().get_matched_subscriptions().await.ok();
+            let rl = readers[i].as_ref().unwrap().matched().await;
+            lists.push((wl, rl));
+        }
+        let cur: Vec<(Option<usize>, Option<usize>)> = lists
+            .iter()
+            .map(|(a, b)| (a.as_ref().map(|v| v.len()), b.as_ref().map(|v| v.len())))
+            .collect();
+        if prev.as_ref() == Some(&cur) {
+            return (lists, true);
+        }
+        prev = Some(cur);
+        if sim.now() - t0 > 30 * SEC {
+            return (lists, false);
+        }
+        sim.sleep(SEC).await;
+    }
 }
 
 fn pol_list(p: &[QosPolicyCount]) -> Vec<(QosPolicyId, i32)> {
     p.iter().map(|c| (c.policy_id, c.count)).collect()
 }
 
-async fn e2e_scenario(w: World, specs: Vec<PairSpec>) -> E2eOutcome {
+async fn e2e_scenario(w: World, specs: Vec<PairSpec>, updates: Vec<Option<Upd>>) -> E2eOutcome {
     let sim = w.sim.clone();
     let p0 = new_participant(&w, 0).await;
     let p1 = new_participant(&w, 0).await;
@@ -982,34 +1035,8 @@ async fn e2e_scenario(w: World, specs: Vec<PairSpec>) -> E2eOutcome {
     // 2 s after the last creation, at most 30 s (virtual)
     let t0 = sim.now();
     sim.sleep(2 * SEC).await;
-    let mut prev: Option<Vec<(Option<usize>, Option<usize>)>> = None;
-    let mut stable = false;
-    let mut lists: Vec<(Option<Vec<InstanceHandle>>, Option<Vec<InstanceHandle>>)> = Vec::new();
-    loop {
-        lists.clear();
-        for i in 0..specs.len() {
-            if !obs[i].created {
-                lists.push((None, None));
-                continue;
-            }
-            let wl = writers[i].as_ref().unwrap().get_matched_subscriptions().await.ok();
-            let rl = readers[i].as_ref().unwrap().matched().await;
-            lists.push((wl, rl));
-        }
-        let cur: Vec<(Option<usize>, Option<usize>)> = lists
-            .iter()
-            .map(|(a, b)| (a.as_ref().map(|v| v.len()), b.as_ref().map(|v| v.len())))
-            .collect();
-        if prev.as_ref() == Some(&cur) {
-            stable = true;
-            break;
-        }
-        prev = Some(cur);
-        if sim.now() - t0 > 30 * SEC {
-            break;
-        }
-        sim.sleep(SEC).await;
-    }
+    let created: Vec<bool> = obs.iter().map(|o| o.created).collect();
+    let (lists, stable) = settle(&sim, &created, &writers, &readers).await;
     let settled_at_ms = (sim.now() - t0) / MS;
     for i in 0..specs.len() {
         if !obs[i].created {
@@ -1033,12 +1060,54 @@ async fn e2e_scenario(w: World, specs: Vec<PairSpec>) -> E2eOutcome {
         obs[i].req_status = gr.req.as_ref().map(|s| (s.total_count, s.last_policy_id, pol_list(&s.policies)));
         obs[i].listener_calls = gw.calls + gr.calls;
     }
+    // second phase: change DEADLINE / LATENCY_BUDGET (both changeable on enabled entities) of one
+    // endpoint of some pairs and let discovery re-qualify the pair
+    let mut obs2: Vec<Option<(bool, bool)>> = vec![None; specs.len()];
+    let mut upd_errors = Vec::new();
+    let mut stable2 = true;
+    if stable && updates.iter().any(|u| u.is_some()) {
+        let mut applied = vec![false; specs.len()];
+        for (i, u) in updates.iter().enumerate() {
+            let Some(u) = u else { continue };
+            if !obs[i].created {
+                continue;
+            }
+            let r = if u.on_reader {
+                let mut side = specs[i].req.clone();
+                side.deadline = u.deadline;
+                side.latency = u.latency;
+                readers[i].as_ref().unwrap().set_qos(side.reader_qos()).await
+            } else {
+                let mut side = specs[i].off.clone();
+                side.deadline = u.deadline;
+                side.latency = u.latency;
+                writers[i].as_ref().unwrap().set_qos(QosKind::Specific(side.writer_qos())).await.map_err(|e| err_name(&e))
+            };
+            match r {
+                Ok(()) => applied[i] = true,
+                Err(e) => upd_errors.push(format!("pair {i}: set_qos on the {} failed with {e}", if u.on_reader { "reader" } else { "writer" })),
+            }
+        }
+        sim.sleep(2 * SEC).await;
+        let (lists2, st2) = settle(&sim, &created, &writers, &readers).await;
+        stable2 = st2;
+        for i in 0..specs.len() {
+            if applied[i] {
+                if let (Some(wl), Some(rl)) = (&lists2[i].0, &lists2[i].1) {
+                    obs2[i] = Some((!wl.is_empty(), !rl.is_empty()));
+                }
+            }
+        }
+    }
     drop(keep);
     let _ = (&p0, &p1);
     E2eOutcome {
         obs,
         settled_at_ms,
         stable,
+        obs2,
+        upd_errors,
+        stable2,
     }
 }
 
@@ -1101,8 +1170,19 @@ fn e2e_case(shard: &Shard, rep: &mut Report, case: u64, trace: bool, only_pair: 
     cfg.sim.jitter_max = *rng.pick(&[0i64, 0, 1000, 1_000_000]);
     cfg.sim.max_polls = shard.args.u64("max-polls", 20_000_000);
     let specs2 = specs.clone();
+    // drawn from a separate stream so that the pairs of a case do not depend on it
+    let mut urng = Rng::new(vcore::mix(cs, 0x0bd));
+    let updates: Vec<Option<Upd>> = specs
+        .iter()
+        .map(|s| {
+            let u = Upd { on_reader: urng.bool(), deadline: urng.below(4) as u8, latency: urng.below(4) as u8 };
+            let changes = if u.on_reader { (u.deadline, u.latency) != (s.req.deadline, s.req.latency) } else { (u.deadline, u.latency) != (s.off.deadline, s.off.latency) };
+            if urng.chance(0.4) && s.type_mode == 0 && !s.topic_differs && changes && shard.args.u64("no-updates", 0) == 0 { Some(u) } else { None }
+        })
+        .collect();
+    let updates2 = updates.clone();
     let t_wall = std::time::Instant::now();
-    let (res, stats, net) = run_world(&cfg, move |w| e2e_scenario(w, specs2));
+    let (res, stats, net) = run_world(&cfg, move |w| e2e_scenario(w, specs2, updates2));
     if trace {
         eprintln!(
             "  world: wall={:?} polls={} worker_polls={} end={}ms counters={:?}",
@@ -1129,6 +1209,77 @@ fn e2e_case(shard: &Shard, rep: &mut Report, case: u64, trace: bool, only_pair: 
     if !o.stable {
         rep.stat("e2e_worlds_not_stable_within_30s(no verdict)", 1);
         return;
+    }
+    for e in &o.upd_errors {
+        // DEADLINE and LATENCY_BUDGET are changeable; a refusal belongs to C37, here it only
+        // removes the pair from the second verdict
+        rep.stat("e2e_update_set_qos_refused(no verdict, see C37)", 1);
+        rep.set("e2e_update_errors", e.split(" failed with ").nth(1).unwrap_or("?").to_string());
+    }
+    if !o.stable2 {
+        rep.stat("e2e_worlds_not_stable_after_update_within_30s(no second verdict)", 1);
+    }
+    for (i, s) in specs.iter().enumerate() {
+        let (Some(u), Some((wm2, rm2)), true) = (&updates[i], o.obs2[i], o.stable2) else { continue };
+        if let Some(p) = only_pair {
+            if p != i {
+                continue;
+            }
+        }
+        let mut s2 = s.clone();
+        if u.on_reader {
+            s2.req.deadline = u.deadline;
+            s2.req.latency = u.latency;
+        } else {
+            s2.off.deadline = u.deadline;
+            s2.off.latency = u.latency;
+        }
+        let qos1 = rxo(&s.off, &s.req);
+        let qos2 = rxo(&s2.off, &s2.req);
+        let (part, _) = fnm::partition_verdict(&s.wpart, &s.rpart);
+        if part == Tri::Unknown {
+            continue;
+        }
+        let exp1 = part == Tri::Yes && qos1.is_empty();
+        // a pair whose FIRST verdict was already wrong is reported there (with its own class);
+        // the second verdict is about what the update changes
+        if o.obs[i].w_matched != Some(exp1) || o.obs[i].r_matched != Some(exp1) {
+            rep.stat("e2e_pairs_skipped_after_update(first verdict already wrong)", 1);
+            continue;
+        }
+        let exp2 = part == Tri::Yes && qos2.is_empty();
+        rep.stat("e2e_pairs_checked_after_update", 1);
+        let transition = format!("{}_to_{}", if exp1 { "match" } else { "no_match" }, if exp2 { "match" } else { "no_match" });
+        rep.stat(&format!("e2e_update_{transition}"), 1);
+        rep.nontrivial(vcore::mix(vcore::fnv_str(&s2.to_json().to_string()), 0x0bd0 | (wm2 as u64) | (rm2 as u64) << 1 | (exp1 as u64) << 2));
+        for (side, matched) in [("writer", wm2), ("reader", rm2)] {
+            if matched == exp2 {
+                continue;
+            }
+            let kind = if exp2 { "false_mismatch" } else { "false_match" };
+            let pols: Vec<String> = if exp2 { qos1.iter().map(|p| policy_name(*p)).collect() } else { qos2.iter().map(|p| policy_name(*p)).collect() };
+            let pol = if part != Tri::Yes { "partition".to_string() } else { pols.first().cloned().unwrap_or_else(|| "none".into()) };
+            rep.violation(
+                format!("after_update|policy={pol}|{kind}|side={side}|transition={transition}"),
+                format!(
+                    "after set_qos on the {} (deadline {} -> {}, latency_budget {} -> {}) the pair is {} per DDS 1.4 (incompatible policies now: {:?}, before: {:?}) but the {side} side reports matched={matched}",
+                    if u.on_reader { "reader" } else { "writer" },
+                    DUR_NAMES[if u.on_reader { s.req.deadline } else { s.off.deadline } as usize],
+                    DUR_NAMES[u.deadline as usize],
+                    DUR_NAMES[if u.on_reader { s.req.latency } else { s.off.latency } as usize],
+                    DUR_NAMES[u.latency as usize],
+                    if exp2 { "compatible" } else { "incompatible" },
+                    qos2.iter().map(|p| policy_name(*p)).collect::<Vec<_>>(),
+                    qos1.iter().map(|p| policy_name(*p)).collect::<Vec<_>>(),
+                ),
+                base.clone()
+                    .set("pair", i)
+                    .set("pairs_in_world", n_pairs)
+                    .set("spec", s.to_json())
+                    .set("update", Json::obj().set("on", if u.on_reader { "reader" } else { "writer" }).set("deadline", DUR_NAMES[u.deadline as usize]).set("latency_budget", DUR_NAMES[u.latency as usize]))
+                    .set("side", side),
+            );
+        }
     }
     for (i, (s, ob)) in specs.iter().zip(o.obs.iter()).enumerate() {
         if let Some(p) = only_pair {
